@@ -235,6 +235,34 @@ pub fn run(tier: Tier, seed: u64) -> i32 {
             cases.push(c);
         }
     }
+    // a real output called like the expected column of a bidirectional signal: `B_out` in an
+    // expression is that output, `B` the bidirectional signal, whatever order the driver lists them in
+    {
+        let l = |n: i64| Entry::Lit(n, Radix::Dec);
+        let sigs = vec![Sig::inp("A", 8, 0), Sig::inp("CLK", 1, 0), Sig::bidir("B", 8, V::Num(4)), Sig::out("B_out", 8)];
+        let header: Vec<String> = ["A", "CLK", "B", "B_out"].iter().map(|s| s.to_string()).collect();
+        let body = vec![
+            Stmt::Row(vec![Entry::Paren(name("B_out")), l(0), Entry::Z, Entry::X]),
+            Stmt::Row(vec![Entry::Paren(bin(BinOp::Sub, name("B_out"), name("B"))), Entry::C, Entry::Z, Entry::X]),
+            Stmt::Let("a".into(), name("B")),
+            Stmt::Row(vec![Entry::Paren(name("a")), l(0), Entry::Z, Entry::X]),
+            Stmt::Row(vec![Entry::Paren(name("B")), l(0), l(1), Entry::X]),
+        ];
+        let prog = Program { header, body };
+        for order in 0..2 {
+            let mut menu = vec![];
+            for (b, bo) in [(1i64, 5i64), (2, 6), (5, 1)] {
+                let mut a = vec![("B".to_string(), V::Num(b)), ("B_out".to_string(), V::Num(bo))];
+                if order == 1 {
+                    a.reverse();
+                }
+                menu.push(MenuItem::ans(a));
+            }
+            for ov in [true, false] {
+                cases.push(Case::new(&format!("bidirectional B next to a real output B_out, driver order {order} ({})", if ov { "Ov" } else { "Fw" }), prog.clone(), sigs.clone(), ov, menu.clone(), menu.clone(), 12));
+            }
+        }
+    }
     let ncases = cases.len();
     let res = explore(cases, oracle(), true, &deadline);
     let mut st = res.stats;
@@ -277,9 +305,10 @@ pub fn run(tier: Tier, seed: u64) -> i32 {
             "state merging is sound if equal keys imply equal futures (DESIGN section 5.1); the thorough tier re-explores a slice without merging and requires its key pairs to be a subset".into(),
             "mismatches on programs whose loop/repeat bound is read from the device are attributed to C01 when the subject is equally wrong on the program with the literal bound".into(),
         ],
-        required_witnesses: vec!["read_output_not_supplied_constructor_fails", "read_of_Z_or_X_is_an_error_item", "c_expansion", "loop_bound_computed", "while_ran_2plus", "shadow", "row_with_an_answer_of_the_wrong_length"],
+        required_witnesses: vec!["read_output_not_supplied_constructor_fails", "read_of_Z_or_X_is_an_error_item", "c_expansion", "loop_bound_computed", "while_ran_2plus", "shadow", "row_with_an_answer_of_the_wrong_length", "one_loaded_test_used_twice_with_different_drivers"],
         exhaustive_note: "every reachable state up to the depth bound for every case".into(),
         e1: true,
     };
+    st.merge(crate::props::c13::reuse_part(&deadline));
     finish(meta, st, started)
 }
